@@ -298,7 +298,7 @@ def main():
             "true" if c.get("first") else "false"))
         meta.append({"id": i, "cls": c["cls"], "tags": c["tags"], "type": c["type"], "child": c["child"],
                      "succ": c["succ"], "kind": c["kind"], "sig": sig, "known": sig in known_decl,
-                     "first": bool(c.get("first")), "method": c["method"], "cm_tags": c["cm_tags"], "pyranks": pyranks(c["cm"])})
+                     "first": bool(c.get("first")), "method": c["method"], "cm_json": c["cm"], "cm_tags": c["cm_tags"], "pyranks": pyranks(c["cm"])})
     lines.append("Definition checks : list check := [\n%s\n]." % ";\n".join(rows))
     lines.append("Definition known_failing : list N := [%s]." % "; ".join(str(m["id"]) for m in meta if m["known"]))
     lines.append("Close Scope N_scope.")
